@@ -73,8 +73,9 @@ void BitSequenceRRR::build(const uint *bitseq, size_t len, uint sample_rate) {
     O_bits_len += E->get_log2binomial(BLOCK_SIZE, value);
   }
 
-  // Table O
-  O_len = uint_len(1, O_bits_len);
+  // Table O (at least one word: blocks that are all zeros or all ones take no
+  // offset bits, and their empty field is still read and written at O[0])
+  O_len = max((uint)1, uint_len(1, O_bits_len));
   O = new uint[O_len];
   for (uint i = 0; i < O_len; i++)
     O[i] = 0;
